@@ -22,7 +22,9 @@ fn nt_c05(_l: &[&'static str], e: &Ev, _d: &DiffResult) -> bool {
 }
 
 fn nt_c06(_l: &[&'static str], e: &Ev, _d: &DiffResult) -> bool {
-    ev(e, "captured_write") > 0 && ev(e, "captured_read") > 0
+    (ev(e, "captured_write") > 0 && ev(e, "captured_read") > 0)
+        // module programs: a function of an imported module ran (its free names are that module's)
+        || (ev(e, "import") >= 2 && ev(e, "import_again") > 0)
 }
 
 fn nt_c07(_l: &[&'static str], e: &Ev, _d: &DiffResult) -> bool {
@@ -39,6 +41,8 @@ fn nt_c09(_l: &[&'static str], e: &Ev, d: &DiffResult) -> bool {
     (ev(e, "fiber_yielded") >= 2 && d.fiber_switches >= 3)
         || ((ev(e, "fiber_call_finished") + ev(e, "fiber_call_running") + ev(e, "yield_at_root")) > 0
             && ev(e, "fiber_yielded") + ev(e, "fiber_returned") > 0)
+        // module programs: a fiber was switched to while more than one module was loaded
+        || (ev(e, "import") >= 1 && d.fiber_switches >= 2)
 }
 
 fn nt_c18(l: &[&'static str], e: &Ev, _d: &DiffResult) -> bool {
@@ -68,8 +72,12 @@ pub fn c06() -> DiffProp {
             // the same scoping shapes with fibers among them: closures created inside a fiber's body,
             // before and after a yield, sharing the fiber's locals with each other and with the caller
             Fam::profile("scopes_fibers", { let mut p = profiles::c06(); p.name = "c06f"; p.w_fiber = 5; p.w_try = 1; p }, 30_000, 250_000, 700),
+            // free names across module boundaries: a name that is not a local or a captured variable is
+            // the global of the module whose text contains the use - looked up when the use executes,
+            // wherever the function is called from - and never a global of main or of the importer
+            Fam::custom("scopes_modules", Box::new(crate::gen_mod::program), 20_000, 150_000, 260),
         ],
-        rule: "cases: generated programs (profile c06: nested blocks, functions, lambdas and loops to depth 5, shadowing, closures stored in variables and called later, closures assigning captured variables, parameters and loop-body variables captured, global redefinition; family scopes_fibers adds fibers whose bodies declare, capture and write variables across yields). Oracle: reference interpreter (variables are heap cells in persistent scope lists) vs yarel. Non-trivial: a variable was written from a call frame other than the one that declared it and a captured variable was read; distinct by program text.",
+        rule: "cases: generated programs (profile c06: nested blocks, functions, lambdas and loops to depth 5, shadowing, closures stored in variables and called later, closures assigning captured variables, parameters and loop-body variables captured, global redefinition; family scopes_fibers adds fibers whose bodies declare, capture and write variables across yields). Family 'scopes_modules': generated module graphs (the C14 generator): functions, closures and fiber bodies of one module called from another, names defined in several modules and in main under the same spelling, built-ins replaced by main or by a module for itself — a free name means the global of the module whose text contains the use. Oracle: reference interpreter (variables are heap cells in persistent scope lists) vs yarel. Non-trivial: a variable was written from a call frame other than the one that declared it and a captured variable was read, or (module programs) >=2 imports of which one names a module already loaded; distinct by program text.",
         nontrivial: nt_c06,
         floors: vec![("gen:shadow", 2000), ("gen:lambda", 3000), ("ev:captured_write", 300), ("ev:captured_read", 3000)],
         assumptions: vec![],
@@ -106,8 +114,13 @@ pub fn c08() -> DiffProp {
 pub fn c09() -> DiffProp {
     DiffProp {
         id: "C09",
-        families: vec![Fam::profile("fibers", profiles::c09(), 80_000, 600_000, 800)],
-        rule: "cases: generated programs (profile c09: fibers whose bodies yield from loops, nested function frames and try blocks, return values, take parameters; drivers that call with and without values, too few/many times, with wrong argument counts, query has_finished). Oracle: reference interpreter with stackful coroutines vs yarel. Non-trivial: >=2 yields and >=3 switches, or a rejected misuse next to successful transfers; distinct by program text.",
+        families: vec![
+            Fam::profile("fibers", profiles::c09(), 80_000, 600_000, 800),
+            // fibers whose bodies were defined in one module and are first called, resumed and finished
+            // from another: the fiber keeps its own module's globals from its first instruction on
+            Fam::custom("fibers_modules", Box::new(crate::gen_mod::program), 20_000, 150_000, 260),
+        ],
+        rule: "cases: generated programs (profile c09: fibers whose bodies yield from loops, nested function frames and try blocks, return values, take parameters; drivers that call with and without values, too few/many times, with wrong argument counts, query has_finished); family 'fibers_modules': generated module graphs (the C14 generator) in which module functions are fiber bodies, called first and resumed from other modules, so that a fiber has to keep the globals of the module its body was written in. Oracle: reference interpreter with stackful coroutines vs yarel. Non-trivial: >=2 yields and >=3 switches, or a rejected misuse next to successful transfers, or (module programs) >=2 fiber switches with an imported module loaded; distinct by program text.",
         nontrivial: nt_c09,
         floors: vec![("ev:fiber_yielded", 5000), ("ev:fiber_returned", 1000), ("ev:fiber_call_finished", 300), ("gen:yield_nested_frame", 500), ("gen:try_spans_yield", 500)],
         assumptions: vec![],
